@@ -135,7 +135,7 @@ func runC03(c *Ctx) {
 	}
 	// aggregate commit verified is the block's own
 	for _, s := range CallsIn(verify, "(*consensus.Executer).verifyAggregateCommit") {
-		t := T(s.Call.Common().Args[2])
+		t := T(ArgK(s.Call, 2))
 		c.Require("C03.V reject-edge", FuncKey(verify)+": aggregate commit argument", p.InstrPos(s.Call), "the block's own aggregate commit is verified", t.Op == "field" && t.Sym == "AggregateCommit" && strings.HasPrefix(t.Args[0].String(), "p2."), t.String())
 	}
 
@@ -151,7 +151,7 @@ func runC03(c *Ctx) {
 			c.Require("C03.V apply-gates", FuncKey(procV)+": "+callee+" succeeded", p.InstrPos(ab), "AddBlock is reached only on the nil-error edge of this step", ok, why)
 		}
 		// verifyBlock and abi.Verify receive the same block that is added
-		added := T(ab.Common().Args[2]).String()
+		added := T(ArgK(ab, 2)).String()
 		for _, callee := range []string{"(*consensus.Executer).verifyBlock", "(*consensus.stateExecuter).Verify", "(*consensus.stateExecuter).Execute"} {
 			for _, s := range CallsIn(procV, callee) {
 				a := s.Call.Common().Args
@@ -192,7 +192,7 @@ func runC03(c *Ctx) {
 		c.Require("C03.V reject-edge", FuncKey(procV)+": events count <= MaxEventsPerBlock", p.InstrPos(ab), "AddBlock dominated by the event-count bound", okEv, "")
 		// state root: Commit is told the block's state root as expected root
 		for _, s := range CallsIn(procV, "(*consensus.stateExecuter).Commit") {
-			a := T(s.Call.Common().Args[2])
+			a := T(ArgK(s.Call, 2))
 			c.Require("C03.V reject-edge", FuncKey(procV)+": stateRoot checked by Commit", p.InstrPos(s.Call), "the application commit is given block.Header.StateRoot as the expected root", a.Op == "field" && a.Sym == "StateRoot" && strings.Contains(a.String(), added), a.String())
 		}
 	}
@@ -211,7 +211,7 @@ func runC03(c *Ctx) {
 			okV := false
 			why := ""
 			for _, v := range CallsIn(s.Fn, "(*blockchain.Block).Validate") {
-				if T(v.Call.Common().Args[0]).String() == at.String() && instrDominates(v.Call, s.Call) {
+				if T(ArgK(v.Call, 0)).String() == at.String() && instrDominates(v.Call, s.Call) {
 					if ok, w := ff.NilErrAt(s.Call.Block(), Matcher{"this Validate", func(t *Term) bool { return t.V == v.Call.Value() }}); ok {
 						okV, why = true, w
 					}
@@ -399,7 +399,7 @@ func runC03(c *Ctx) {
 		// (b) events only after AddBlock succeeded
 		for _, s := range CallsIn(procV, "(*event.EventEmitter).Publish") {
 			ok, why := pf.NilErrAt(s.Call.Block(), IsCall("(*blockchain.Chain).AddBlock"))
-			c.Require("C03.N events-after-accept", FuncKey(procV)+" ⇒ Publish("+T(s.Call.Common().Args[1]).String()+")", p.InstrPos(s.Call), "events are emitted only after AddBlock returned nil", ok && instrDominates(ab, s.Call), why)
+			c.Require("C03.N events-after-accept", FuncKey(procV)+" ⇒ Publish("+T(ArgK(s.Call, 1)).String()+")", p.InstrPos(s.Call), "events are emitted only after AddBlock returned nil", ok && instrDominates(ab, s.Call), why)
 		}
 		// (c) the application commit is the last fallible step before AddBlock: no reject edge between Commit and AddBlock
 		for _, s := range CallsIn(procV, "(*consensus.stateExecuter).Commit") {
